@@ -66,11 +66,13 @@
  * remains allocated"): only the memory oracles are reported (ASan, the end-of-case audit of the four managers and of the counting
  * umem), and in a share of the cases an allocation inside an operation is refused (engine/faultmalloc.h): the operation may fail,
  * but what it had built must be given back exactly once. */
+#endif
+/* allocation fault injection (engine/faultmalloc.h, force-included): the twin refuses allocations inside any operation; the C10
+ * executor proper only inside uref_dup (a duplicate that is returned holds the attributes of its original) */
 #include "faultmalloc.h"
 #undef malloc
 #undef calloc
 #undef realloc
-#endif
 
 /* accessors declared by the harness with the repository's macros */
 UREF_ATTR_STRING(vt, s_a, "v.a", test string)
@@ -792,9 +794,19 @@ static void op_dup(struct ctx *c)
     int slot = pick_slot(c, s);
     struct muref *m = &c->mu[slot];
     snprintf(c->what, sizeof c->what, "u%d = uref_dup(u%d)", slot, s);
+#ifndef UREFATTR_AS_C01
+    bool fault = ((c->hash >> 7) & 7) == 0;      /* (every octet of the operation byte is taken: decided by the history so far) */
+    if (fault) vp_fault_arm(1 + (c->hash >> 10) % 3);
+    m->u = uref_dup(c->mu[s].u);
+    bool refused = fault && vp_fault_disarm() > 0;
+    R("  %s -> %s%s\n", c->what, m->u ? "ok" : "NULL", refused ? " (an allocation inside was refused)" : "");
+    c->hash = vp_hash_mix(c->hash, s * 8 + slot);
+    if (!m->u && refused) return;              /* no duplicate: fine; a duplicate that IS returned is judged like any other */
+#else
     m->u = uref_dup(c->mu[s].u);
     R("  %s -> %s\n", c->what, m->u ? "ok" : "NULL");
     c->hash = vp_hash_mix(c->hash, s * 8 + slot);
+#endif
     if (!m->u) { FAILK("dup-refused", "%s fails", c->what); return; }
     for (int k = 0; k < NACC; k++) if (c->mu[s].e[k].present) m_set(m, k, c->mu[s].e[k].v, c->mu[s].e[k].size);
     m->from_dup = c->mu[s].from_dup = true; m->peer = s; c->mu[s].peer = slot;
